@@ -55,6 +55,8 @@ class Cfg:
         self.at_on_call = False              # (at (f ..) i): array operand that is neither a variable nor a literal
         self.for_bound_mutated = False       # a for loop whose body assigns a variable its range bound reads
         self.literal_first_effect = True     # a call as FIRST element of an array literal (the compile-time evaluator evaluates it twice)
+        self.substr_past_end = True          # str_substring with start at / beyond the end of the string or on a string of unknown length
+                                             # (the compile-time evaluator yields void there: C03/C06 streams switch it off)
         self.strops = False                  # strings as computed values: + / str_concat / str_length / str_equals / str_contains /
                                              # char_at / str_substring / int_to_string; lets/params/returns/globals of type string
         self.reuse_names_across_fns = False  # locals / parameters / loop variables of a function re-use names that EARLIER functions bound
@@ -262,7 +264,16 @@ class Gen:
             return ('s1', 'ofint', self.gen_expr('int', depth - 1, sub, pure))
         self.f('str_substring')
         a = self.gen_str(depth - 1, sub, pure)
+        if not self.c.substr_past_end:
+            return self.substr_inside(a)
         return ('substr', a, ('num', r.randrange(0, 6)), ('num', r.randrange(0, 41)))
+
+    def substr_inside(self, a):
+        """str_substring with 0 <= start < length (only on a literal, whose length is known); otherwise the string itself"""
+        n = self.str_value_len(a)
+        if not n:
+            return a
+        return ('substr', a, ('num', self.r.choice([0, n - 1, n // 2])), ('num', self.r.choice([0, 1, 2, n, n + 1, 300, 4294967295])))
 
     def gen_str(self, depth, sc, pure=False):
         r = self.r
@@ -290,6 +301,9 @@ class Gen:
             # str_substring: start and length anywhere in the common domain (0 .. 2^32-1): inside, at the end, beyond it
             a = self.gen_str(depth - 1, sub, pure)
             n = self.str_value_len(a)
+            if not self.c.substr_past_end:
+                self.f('str_substring')
+                return self.substr_inside(a)
             starts = [0, 0, 1, 2, 5] + ([n - 1, n, n + 1] if n is not None and n >= 1 else []) + [299, 300, 4294967295]
             lens = [0, 1, 2, 3, 7, 40, 300, 301, 4294967295] + ([n, n + 1] if n is not None else [])
             st = ('num', r.choice(starts)) if r.random() < 0.8 else ('s1', 'len', self.gen_str(0, sub, True))
